@@ -195,8 +195,57 @@ func (c *c01Run) run() *violation {
 	if viol == nil {
 		viol = c.compareDumps(0, "at the end of the history")
 	}
+	if viol == nil {
+		c.commitInfoProbe()
+	}
 	c.sum.Extra["background_ops"] = atomic.LoadInt64(&c.bgOps) + toInt64(c.sum.Extra["background_ops"])
 	return viol
+}
+
+// commitInfoProbe shows on the real code what the named hypothesis of
+// cached_equals_reexecution is for: the proposer is handed its own block back with a
+// DIFFERENT commit info. isEqual does not look at it, so the proposer reuses results
+// computed with the commit info of PrepareProposal, while another replica executes the
+// block as delivered. Informational only (CometBFT never does this); recorded in extra.
+func (c *c01Run) commitInfoProbe() {
+	h := c.chain.Next
+	if h <= c.g.Doc.Height+1 {
+		return
+	}
+	p, o := 0, 2
+	prop, oth := c.reps[p], c.reps[o]
+	in := c.chain.NewBlock(c.g.Validators[p].ConsAddr, muxdrv.VotesAll, nil)
+	list, err := prop.Propose(in, nil)
+	if err != nil || len(list) == 0 {
+		return
+	}
+	inB := *in
+	inB.LastCommit = c.chain.CommitInfo(h, muxdrv.VotesNone)
+	hd := cmtproto.Header{Height: in.Height, Time: in.Time, ProposerAddress: in.Proposer}
+	reused := prop.Srv.VerifProcessProposalWouldReuse(&hd, list, nil)
+	out := map[string]any{"height": h, "proposer_reuses_cache": reused}
+	resP, errP := prop.Process(&inB, list)
+	resV, errV := oth.Replay(&inB, list)
+	switch {
+	case errP != nil:
+		out["proposer"] = "failed: " + errP.Error()
+	default:
+		out["proposer"] = "committed " + hx(resP.AppHash)[:16] + " (results computed with the PrepareProposal commit info)"
+	}
+	switch {
+	case errV != nil:
+		e := errV.Error()
+		if len(e) > 160 {
+			e = e[:160]
+		}
+		out["other_replica"] = "rejects the block as delivered: " + e
+	case errP == nil && bytes.Equal(resP.AppHash, resV.AppHash):
+		out["other_replica"] = "agrees (commit info did not matter for this block)"
+	default:
+		out["other_replica"] = "committed a different state " + hx(resV.AppHash)[:16]
+	}
+	c.sum.Extra["commit_info_probe"] = out
+	c.sum.Count("commit_info_probe", fmt.Sprintf("reused=%v other_agrees=%v", reused, errV == nil && errP == nil && bytes.Equal(resP.AppHash, resV.AppHash)))
 }
 
 func toInt64(v any) int64 {
@@ -271,7 +320,7 @@ func u64(qs string) uint64 {
 	return v
 }
 
-func (c *c01Run) genTx(ref *muxdrv.Replica, s sender) txGen {
+func (c *c01Run) genTx(ref *muxdrv.Replica, s sender, sd *muxdrv.StakingDump) txGen {
 	r := c.rng
 	addr := s.key.Address()
 	acc, err := ref.Account(0, addr)
@@ -309,17 +358,61 @@ func (c *c01Run) genTx(ref *muxdrv.Replica, s sender) txGen {
 		tx = muxdrv.TxAddEscrow(nonce, fee, c.g.Validators[r.Intn(4)].EntityAddress(), pick(bal)*4)
 	case k < 58:
 		kind, opCost = "reclaim-escrow", 1300
-		v := c.g.Validators[r.Intn(4)]
-		if s.kind == "entity" {
-			v = c.g.Validators[s.idx]
+		target := c.g.Validators[r.Intn(4)].EntityAddress()
+		shares := 100 + r.U64()%900
+		if sd != nil && r.Chance(85) {
+			// prefer an escrow account the sender really has a delegation in
+			var mine []muxdrv.DelegationDump
+			for _, d := range sd.Delegations {
+				if d.Delegator == addr.String() {
+					mine = append(mine, d)
+				}
+			}
+			if len(mine) == 0 && r.Chance(80) {
+				kind, opCost = "add-escrow", 1300
+				tx = muxdrv.TxAddEscrow(nonce, fee, target, pick(bal)*4)
+				break
+			}
+			if len(mine) > 0 {
+				d := mine[r.Intn(len(mine))]
+				_ = target.UnmarshalText([]byte(d.Escrow))
+				if have := u64(d.Shares); have > 0 {
+					shares = 1 + r.U64()%have
+					if r.Chance(10) {
+						shares = have // reclaim everything
+					}
+				}
+			}
 		}
-		tx = muxdrv.TxReclaimEscrow(nonce, fee, v.EntityAddress(), 100+r.U64()%900)
+		tx = muxdrv.TxReclaimEscrow(nonce, fee, target, shares)
 	case k < 66:
 		kind, opCost = "allow", 1100
 		tx = muxdrv.TxAllow(nonce, fee, c.g.Accounts[r.Intn(len(c.g.Accounts))].Address, r.Chance(25), 50+r.U64()%2000)
 	case k < 74:
 		kind, opCost = "withdraw", 1200
-		tx = muxdrv.TxWithdraw(nonce, fee, c.g.Accounts[r.Intn(len(c.g.Accounts))].Address, 10+r.U64()%200)
+		from := c.g.Accounts[r.Intn(len(c.g.Accounts))].Address
+		amt := 10 + r.U64()%200
+		if sd != nil && r.Chance(85) {
+			// prefer an account that granted the sender an allowance
+			found := false
+			for _, a := range sd.Accounts {
+				if al, ok := a.Allowances[addr.String()]; ok && u64(al) >= 10 {
+					_ = from.UnmarshalText([]byte(a.Address))
+					amt = 10 + r.U64()%(u64(al)-9)
+					found = true
+					break
+				}
+			}
+			if !found && r.Chance(80) {
+				kind, opCost = "allow", 1100
+				tx = muxdrv.TxAllow(nonce, fee, c.g.Accounts[r.Intn(len(c.g.Accounts))].Address, false, 50+r.U64()%2000)
+				break
+			}
+		}
+		tx = muxdrv.TxWithdraw(nonce, fee, from, amt)
+	case k < 79 && s.kind != "entity" && r.Chance(85):
+		kind, opCost = "burn", 1000
+		tx = muxdrv.TxBurn(nonce, fee, pick(bal))
 	case k < 79:
 		kind, opCost = "amend-commission", 1500
 		ep, _, _ := ref.Epoch(0)
@@ -331,6 +424,9 @@ func (c *c01Run) genTx(ref *muxdrv.Replica, s sender) txGen {
 		} else {
 			tx = muxdrv.TxSubmitCancelUpgrade(nonce, fee, uint64(r.Intn(3)))
 		}
+	case k < 90 && s.kind != "entity" && r.Chance(80):
+		kind, opCost = "transfer", 1000
+		tx = muxdrv.TxTransfer(nonce, fee, c.anyAddress(), pick(bal))
 	case k < 90:
 		kind, opCost = "cast-vote", 1100
 		ps, _ := ref.Proposals(0)
@@ -490,6 +586,7 @@ func (c *c01Run) block(b int) *violation {
 		ntx = 0
 	}
 	ss := c.senders()
+	sd, _ := muxdrv.DumpStaking(prop, 0)
 	var gens []txGen
 	if r.Chance(35) {
 		if t := c.newValidatorStep(prop); t != nil {
@@ -503,7 +600,7 @@ func (c *c01Run) block(b int) *violation {
 		if s.kind == "acct" && s.idx == 0 && len(gens) > 0 && strings.HasPrefix(gens[0].kind, "newval-fund") {
 			continue
 		}
-		gens = append(gens, c.genTx(prop, s))
+		gens = append(gens, c.genTx(prop, s, sd))
 	}
 	var cand [][]byte
 	desc := &blkDesc{Height: h, Proposer: p}
@@ -738,6 +835,13 @@ func (c *c01Run) block(b int) *violation {
 	for k, t := range ref.TxResults {
 		if k == len(ref.TxResults)-1 {
 			break
+		}
+		if k < len(desc.TxKinds) && strings.HasSuffix(desc.TxKinds[k], "/valid") && t.Code != 0 {
+			lg := t.Log
+			if len(lg) > 60 {
+				lg = lg[:60]
+			}
+			c.sum.Count("valid_class_failures", strings.SplitN(desc.TxKinds[k], "/", 2)[0]+": "+lg)
 		}
 		if t.Code == 0 {
 			c.sum.Count("tx_result", "ok")
